@@ -413,9 +413,13 @@ class USBStreamOutEndpoint(Elaboratable):
         with m.If(data_is_lost):
             m.d.usb += overflow.eq(1)
 
-        # We'll clear the overflow flag and byte counter when the packet is done.
-        with m.Elif(fifo.write_commit | fifo.write_discard):
+        # The overflow flag decides our handshake, which is only requested an inter-packet delay after
+        # the packet is done (and after its commit/discard); keep it until the next token arrives.
+        with m.Elif(tokenizer.new_token):
             m.d.usb += overflow.eq(0)
+
+        # We'll clear the byte counter when the packet is done.
+        with m.If(fifo.write_commit | fifo.write_discard):
             m.d.usb += rx_cnt.eq(0)
 
         # We'll toggle our DATA PID each time we issue an ACK to the host [USB 2.0: 8.6.2].
